@@ -511,9 +511,56 @@ pub fn exec_child(engine: &dyn Engine, t: &Trace, tmp_tag: &str) -> Result<Optio
     r
 }
 
+/// Re-execute runs [from, to] of one configuration in ONE fresh worker process and return the
+/// first violation it reports (used for violations that depend on what earlier runs left behind
+/// in the process: caches, counters, any state that outlives a call).
+pub fn exec_history(
+    engine: &dyn Engine,
+    seed: u64,
+    tier: Tier,
+    config: Option<&str>,
+    from: u64,
+    to: u64,
+    want_invariant: Option<&str>,
+) -> Result<Option<(u64, Violation, Trace)>, HarnessError> {
+    let cfg = config.and_then(|c| engine.configurations().into_iter().find(|x| x.name == c));
+    let opts = Opts { tier, seed, jobs: 1, runs: None, emit_hashes: false, write_evidence: false, config: cfg };
+    let (m, end) = run_worker(engine, &opts, from, to + 1);
+    match end {
+        WorkerEnd::Done => {
+            let mut v = m.violations;
+            v.sort_by(|a, b| a.0.cmp(&b.0));
+            // prefer the wanted invariant at the last run, then the wanted invariant anywhere,
+            // then whatever came first
+            if let Some(w) = want_invariant {
+                if let Some(i) = v.iter().position(|x| x.0 == to && x.1.invariant == w) {
+                    return Ok(Some(v.swap_remove(i)));
+                }
+                if let Some(i) = v.iter().position(|x| x.1.invariant == w) {
+                    return Ok(Some(v.swap_remove(i)));
+                }
+            }
+            Ok(v.into_iter().next())
+        }
+        WorkerEnd::Died { how, .. } => Err(HarnessError(format!("history re-execution died: {}", how))),
+        WorkerEnd::HarnessError(e) => Err(HarnessError(e)),
+    }
+}
+
 pub fn exec_file(engine: &dyn Engine, path: &str) -> Result<Option<Violation>, HarnessError> {
     let mut exe = std::env::current_exe().map_err(|e| HarnessError(e.to_string()))?;
     if let Ok(text) = std::fs::read_to_string(path) {
+        // a history replay: the violation needs the runs before it in the same process
+        let meta = |k: &str| text.lines().find_map(|l| l.strip_prefix(&format!("meta {}=", k)).map(|x| x.to_string()));
+        if let (Some(hf), Some(ht)) = (meta("history-from"), meta("history-to")) {
+            let from: u64 = hf.parse().map_err(|_| HarnessError("bad history-from".into()))?;
+            let to: u64 = ht.parse().map_err(|_| HarnessError("bad history-to".into()))?;
+            let tier = meta("history-tier").and_then(|t| Tier::parse(&t)).unwrap_or(Tier::Quick);
+            let seed: u64 = text.lines().find_map(|l| l.strip_prefix("seed=")).and_then(|x| x.parse().ok()).unwrap_or(1);
+            let cfg = meta("config");
+            let want = text.lines().find_map(|l| l.strip_prefix("invariant=")).map(|x| x.to_string());
+            return Ok(exec_history(engine, seed, tier, cfg.as_deref(), from, to, want.as_deref())?.map(|(_, v, _)| v));
+        }
         if let Some(cfg) = text.lines().find_map(|l| l.strip_prefix("meta config=")) {
             if let Some(c) = engine.configurations().into_iter().find(|c| c.name == cfg) {
                 if let Some(p) = c.exe {
@@ -806,13 +853,56 @@ pub fn run_check(engine: &'static dyn Engine, opts: &Opts) -> CheckOutcome {
                 false
             }
             Ok(other) => {
-                eprintln!(
-                    "harness error: run {} reported {} in the worker but {:?} when re-executed alone",
-                    run,
-                    v.invariant,
-                    other.map(|x| x.invariant)
-                );
-                exit = 2;
+                // Not reproducible alone.  The library may carry state from one call to the next
+                // (a cache, a counter): re-execute the runs that preceded it in one fresh process.
+                let from = run.saturating_sub(4096);
+                let cfg = t.meta("config").map(|s| s.to_string());
+                match exec_history(engine, opts.seed, opts.tier, cfg.as_deref(), from, *run, Some(&v.invariant)) {
+                    Ok(Some((hr, hv, mut ht))) if hv.invariant == v.invariant => {
+                        ht.set_meta("history-from", from.to_string());
+                        ht.set_meta("history-to", hr.to_string());
+                        ht.set_meta("history-tier", opts.tier.name());
+                        let key = format!("{}:needs-history", engine.finding_key(&ht, &hv.invariant));
+                        let path = format!("{}/replays/{}-seed{}-run{}-history.replay", VERIF_DIR, id, opts.seed, hr);
+                        let _ = std::fs::create_dir_all(format!("{}/replays", VERIF_DIR));
+                        let mut text = ht.render(&hv.invariant, &hv.detail);
+                        text.push_str(&format!("# key={}\n# this violation does not occur when run {} executes alone in a fresh process; it needs runs {}..{} before it in the same process (state carried across calls)\n", key, hr, from, hr));
+                        let _ = std::fs::write(&path, text);
+                        let kf = known.iter().find(|k| k.property == id && k.invariant == hv.invariant && k.key == key);
+                        if let Some(k) = kf {
+                            println!("KNOWN-FINDING: property={} {} (invariant={} key={} replay={})", id, k.what, k.invariant, k.key, path);
+                            known_hits += 1;
+                        } else {
+                            println!("VIOLATION property={} replay={}", id, path);
+                            println!("  invariant={} key={} run={} detail={}", hv.invariant, key, hr, hv.detail);
+                            println!("  history-dependent: reproduces only after runs {}..{} in the same process, not alone (alone: {:?})", from, hr, other.as_ref().map(|x| x.invariant.clone()));
+                            new_violations += 1;
+                            if exit == 0 {
+                                exit = 1;
+                            }
+                        }
+                        let mut j = Json::obj();
+                        j.set("invariant", Json::s(hv.invariant.clone()))
+                            .set("key", Json::s(key))
+                            .set("run", Json::i(hr as i128))
+                            .set("replay", Json::s(path))
+                            .set("known_finding", Json::Bool(kf.is_some()))
+                            .set("detail", Json::s(hv.detail.clone()))
+                            .set("history_dependent", Json::Bool(true));
+                        violation_json.push(j);
+                    }
+                    other2 => {
+                        eprintln!(
+                            "harness error: run {} reported {} in the worker but {:?} when re-executed alone, and {:?} when re-executed after the {} runs before it",
+                            run,
+                            v.invariant,
+                            other.map(|x| x.invariant),
+                            other2.map(|o| o.map(|(r, x, _)| (r, x.invariant))).map_err(|e| e.0),
+                            run - from
+                        );
+                        exit = 2;
+                    }
+                }
                 false
             }
             Err(e) => {
